@@ -12,7 +12,16 @@ type LevelSpec struct {
 	Label   string `json:"label"`
 	Signed  bool   `json:"signed"`
 	NSEC3   bool   `json:"nsec3,omitempty"`
-	Secure  bool   `json:"secure"` // the parent publishes a DS (whole chain above is secure too)
+	Secure  bool   `json:"secure"` // the parent publishes a usable DS (whole chain above is secure too)
+	// DSKind says what else the parent's DS RRset holds (all records signed by
+	// the parent, all with DSTTL):
+	//   ""          the child's SHA-256 DS (Secure) or no DS RRset at all
+	//   "mixed"     Secure: the usable DS plus records with a digest type / key
+	//               algorithm no validator here implements
+	//   "unusable"  not Secure: ONLY such records — the child is insecure
+	//               (RFC 6840 §5.2), but the referral still carries a DS RRset
+	//               whose TTL is a term of the lease
+	DSKind string `json:"ds_kind,omitempty"`
 	NSTTL   uint32 `json:"ns_ttl"`
 	DSTTL   uint32 `json:"ds_ttl"`
 	Servers int    `json:"servers"`
@@ -50,6 +59,121 @@ type Scenario struct {
 
 	WithdrawAt string `json:"withdraw_at"` // "early" | "mid" | "late" | "renewed"
 	Rounds     int    `json:"rounds"`
+
+	// ---- focus scenarios only (index >= focusBase) ----------------------------
+	Focus string `json:"focus,omitempty"` // family name
+	// DNSSECOff: the resolver runs with dnssec = "off" (no DO upstream, so the
+	// referrals it gets carry no DS RRset at all).
+	DNSSECOff bool `json:"dnssec_off,omitempty"`
+	// Alias: a sibling zone of level 1, delegated by the root with a long lease
+	// and never changed, holds CNAMEs into the victim's zones.
+	Alias *AliasSpec `json:"alias,omitempty"`
+	// SoonAfter: the first round past the bound is placed within seconds of it
+	// (entries that wrongly survive the lease may have short lives of their own).
+	SoonAfter bool `json:"soon_after_bound,omitempty"`
+}
+
+// AliasSpec describes the long-leased sibling zone and its aliases.
+type AliasSpec struct {
+	Signed   bool   `json:"signed"` // signed, with a DS at the root
+	NSTTL    uint32 `json:"ns_ttl"`
+	CNAMETTL uint32 `json:"cname_ttl"`
+	// Targets: what the OLD child says about each alias target (a name directly
+	// below the victim's apex; "deep-positive": www.<deepest zone>):
+	//   positive | nxdomain-soa | nxdomain-bare | nodata-soa | nodata-bare | deep-positive
+	// The re-pointed generation publishes an A record for every target.
+	Targets []string `json:"targets"`
+}
+
+var aliasShapes = []string{"positive", "nxdomain-soa", "nxdomain-bare", "nodata-soa", "nodata-bare", "deep-positive"}
+
+// focusBase is the first index of the focus scenarios: the scenarios added for
+// the DS-usability and cross-zone-alias dimensions live in their own index
+// space, so that the older scenarios stay what they were.
+const focusBase = 1 << 20
+
+var focusFamilies = []string{"ds-unusable", "alias-dnssec-off", "ds-mixed", "alias-insecure"}
+
+// genFocus derives focus scenario j (index focusBase+j) from an ordinary
+// generated one.
+func genFocus(rng *rand.Rand, seed uint64, index int) *Scenario {
+	sc := genScenario(rng, seed, index)
+	j := index - focusBase
+	fam := focusFamilies[j%len(focusFamilies)]
+	round := j / len(focusFamilies)
+	sc.Focus = fam
+	v := &sc.Levels[sc.Victim-1]
+	depth := len(sc.Levels)
+	short := ttlChoices[2+rng.IntN(7)] // 3 s … 90 s
+	long := []uint32{3600, 86400, 172800}[rng.IntN(3)]
+	secureAbove := func() {
+		for i := 0; i < sc.Victim-1; i++ {
+			sc.Levels[i].Signed, sc.Levels[i].Secure, sc.Levels[i].DSKind = true, true, ""
+		}
+	}
+	insecureBelow := func() {
+		for i := sc.Victim; i < depth; i++ {
+			sc.Levels[i].Secure, sc.Levels[i].DSKind = false, ""
+		}
+	}
+	switch fam {
+	case "ds-unusable":
+		// the chain is secure down to the victim's parent, which publishes a DS
+		// RRset for the victim that nobody can use
+		secureAbove()
+		v.Secure, v.DSKind = false, "unusable"
+		v.Signed = rng.IntN(2) == 0
+		insecureBelow()
+	case "ds-mixed":
+		secureAbove()
+		v.Signed, v.Secure, v.DSKind = true, true, "mixed"
+	case "alias-dnssec-off":
+		sc.DNSSECOff = true
+	case "alias-insecure":
+		// an insecure victim: no DS at all, or only unusable ones
+		secureAbove()
+		v.Secure = false
+		v.Signed = rng.IntN(3) == 0
+		v.DSKind = []string{"", "unusable"}[rng.IntN(2)]
+		insecureBelow()
+	}
+	// DS TTL != NS TTL at the victim; three times out of four the DS is the
+	// shorter one. Everything above the victim is long, so the victim's own
+	// terms decide.
+	for i := 0; i < sc.Victim-1; i++ {
+		sc.Levels[i].NSTTL, sc.Levels[i].DSTTL = 172800, 172800
+	}
+	if round%4 != 3 {
+		v.NSTTL, v.DSTTL = long, short
+	} else {
+		v.NSTTL, v.DSTTL = short, long
+	}
+	if strings.HasPrefix(fam, "alias-") {
+		// dnssec off / no DS RRset: the NS TTL is the only term; in any case the
+		// victim's lease has to end long before the aliases' own TTLs do
+		v.NSTTL = short
+	}
+	for i := sc.Victim; i < depth; i++ {
+		sc.Levels[i].NSTTL, sc.Levels[i].DSTTL = 172800, 172800
+	}
+	sc.RootTTL = 172800
+	sc.LongTTL = []uint32{3600, 86400, 172800}[rng.IntN(3)]
+	sc.HotTTL = 20 + uint32(rng.IntN(40))
+	// two thirds re-point: only there a denial of the old child differs from
+	// the new parent state
+	sc.Mode = "repoint"
+	if round%3 == 2 {
+		sc.Mode = "withdraw"
+	}
+	sc.WithdrawAt = []string{"early", "mid", "late", "renewed"}[rng.IntN(4)]
+	sc.SoonAfter = rng.IntN(4) != 0
+	al := &AliasSpec{Signed: !sc.DNSSECOff && rng.IntN(2) == 0, NSTTL: 172800, CNAMETTL: []uint32{300, 3600, 86400}[rng.IntN(3)]}
+	al.Targets = append(al.Targets, aliasShapes[:5]...)
+	if depth > sc.Victim {
+		al.Targets = append(al.Targets, "deep-positive")
+	}
+	sc.Alias = al
+	return sc
 }
 
 // ttlChoices spans 1 s … 2 d.
@@ -60,7 +184,7 @@ func pickTTL(rng *rand.Rand) uint32 { return ttlChoices[rng.IntN(len(ttlChoices)
 // leaseOf returns min(NS, DS if secure, 12 h) of a level.
 func leaseOf(l LevelSpec) uint32 {
 	v := l.NSTTL
-	if l.Secure && l.DSTTL < v {
+	if (l.Secure || l.DSKind != "") && l.DSTTL < v {
 		v = l.DSTTL
 	}
 	if v > 43200 {
@@ -170,7 +294,7 @@ func (sc *Scenario) Shape() string {
 	}
 	term := "ns"
 	lease := v.NSTTL
-	if v.Secure && v.DSTTL < lease {
+	if (v.Secure || v.DSKind != "") && v.DSTTL < lease && !sc.DNSSECOff {
 		term, lease = "ds", v.DSTTL
 	}
 	if lease > 43200 {
@@ -181,7 +305,17 @@ func (sc *Scenario) Shape() string {
 			term, lease = "ancestor", a
 		}
 	}
-	return fmt.Sprintf("d%d/v%d/%s/%s/min=%s/%s", len(sc.Levels), sc.Victim, sc.Mode, sec, term, bucket(lease))
+	shape := fmt.Sprintf("d%d/v%d/%s/%s/min=%s/%s", len(sc.Levels), sc.Victim, sc.Mode, sec, term, bucket(lease))
+	if v.DSKind != "" {
+		shape += "/ds=" + v.DSKind
+	}
+	if sc.DNSSECOff {
+		shape += "/dnssec-off"
+	}
+	if sc.Alias != nil {
+		shape += "/alias"
+	}
+	return shape
 }
 
 func bucket(ttl uint32) string {
@@ -202,7 +336,17 @@ func (sc *Scenario) String() string {
 	var b strings.Builder
 	fmt.Fprintf(&b, "#%d %s victim=L%d qmin=%d v6=%v rootttl=%d hot=%d long=%d sr=%v huge=%v nschg=%v glueless=%v at=%s levels:", sc.Index, sc.Mode, sc.Victim, sc.QMin, sc.IPv6, sc.RootTTL, sc.HotTTL, sc.LongTTL, sc.SelfReferral, sc.HugeApexNS, sc.NSChange, sc.Glueless, sc.WithdrawAt)
 	for i, l := range sc.Levels {
-		fmt.Fprintf(&b, " L%d[%s signed=%v secure=%v ns=%d ds=%d srv=%d]", i+1, l.Label, l.Signed, l.Secure, l.NSTTL, l.DSTTL, l.Servers)
+		fmt.Fprintf(&b, " L%d[%s signed=%v secure=%v ns=%d ds=%d srv=%d", i+1, l.Label, l.Signed, l.Secure, l.NSTTL, l.DSTTL, l.Servers)
+		if l.DSKind != "" {
+			fmt.Fprintf(&b, " dskind=%s", l.DSKind)
+		}
+		b.WriteString("]")
+	}
+	if sc.Focus != "" {
+		fmt.Fprintf(&b, " focus=%s dnssec-off=%v soon=%v", sc.Focus, sc.DNSSECOff, sc.SoonAfter)
+	}
+	if sc.Alias != nil {
+		fmt.Fprintf(&b, " alias[signed=%v cname-ttl=%d targets=%s]", sc.Alias.Signed, sc.Alias.CNAMETTL, strings.Join(sc.Alias.Targets, ","))
 	}
 	return b.String()
 }
